@@ -499,10 +499,57 @@ impl DbInner {
 		}))
 	}
 
+	/// The checks of `commit_changes` and `commit_raw` that depend on nothing but the operation
+	/// and the options of its column, in the order in which they would reject the transaction.
+	fn validate_changes(&self, tx: &[(ColId, Operation<Vec<u8>, Vec<u8>>)]) -> Result<()> {
+		for (col, change) in tx {
+			let options = &self.options.columns[*col as usize];
+			if options.btree_index || !options.multitree {
+				if let Operation::InsertTree(..) |
+				Operation::ReferenceTree(..) |
+				Operation::DereferenceTree(..) = change
+				{
+					return Err(Error::InvalidInput(format!("Invalid operation for column {}", col)))
+				}
+			} else {
+				match change {
+					Operation::Set(..) | Operation::Reference(..) | Operation::Dereference(..) =>
+						return Err(Error::InvalidConfiguration(
+							"Invalid operation for multitree column".to_string(),
+						)),
+					Operation::InsertTree(_, node) => HashColumn::check_children_count(node)?,
+					Operation::DereferenceTree(..) if options.append_only =>
+						return Err(Error::InvalidConfiguration(
+							"Attempting to dereference a tree from an append_only column."
+								.to_string(),
+						)),
+					_ => (),
+				}
+			}
+		}
+		for (col, change) in tx {
+			let options = &self.options.columns[*col as usize];
+			let references = match change {
+				Operation::Reference(..) => true,
+				Operation::ReferenceTree(..) => !options.append_only,
+				_ => false,
+			};
+			if references && !options.ref_counted {
+				return Err(Error::InvalidInput(format!("No Rc for column {}", col)))
+			}
+		}
+		Ok(())
+	}
+
 	fn commit_changes<I>(&self, tx: I) -> Result<()>
 	where
 		I: IntoIterator<Item = (ColId, Operation<Vec<u8>, Vec<u8>>)>,
 	{
+		// An operation that is invalid for its column rejects the whole transaction: find it before
+		// anything is claimed in the value tables or registered for the trees.
+		let tx: Vec<(ColId, Operation<Vec<u8>, Vec<u8>>)> = tx.into_iter().collect();
+		self.validate_changes(&tx)?;
+
 		let mut commit: CommitChangeSet = Default::default();
 		for (col, change) in tx.into_iter() {
 			if self.options.columns[col as usize].btree_index {
